@@ -99,6 +99,38 @@ Fixpoint trace (cs : list call) (s : state) : list sx :=
   | c :: r => let sr := step s c in enc_step s (fst sr) (snd sr) :: trace r (fst sr)
   end.
 
+(* compact form for bulk runs: the five delta lists of a call are replaced by two independent
+   polynomial hashes (mod 2^31, two odd multipliers) of the same nested list; the harness computes the
+   same hashes from its own dump and re-runs a case in full form (c01_case) when they differ *)
+Definition hM : Z := 2147483647.   (* 2^31 - 1, used as a bit mask *)
+Fixpoint hash_sx (B : Z) (x : sx) (acc : Z) : Z :=
+  match x with
+  | I z => Z.land (acc * B + (z + 101)) hM
+  | L l =>
+      let a1 := Z.land (acc * B + 7) hM in
+      let a2 := (fix go (l : list sx) (a : Z) : Z :=
+                   match l with [] => a | y :: r => go r (hash_sx B y a) end) l a1 in
+      Z.land (a2 * B + 11) hM
+  end.
+
+Definition enc_step_h (s s' : state) (r : res payload) : sx :=
+  let d := L [delta enc_op (s_ops s) (s_ops s') (n_op s');
+              delta enc_block (s_blocks s) (s_blocks s') (n_block s');
+              delta enc_region (s_regions s) (s_regions s') (n_region s');
+              delta enc_value (s_values s) (s_values s') (n_value s');
+              delta enc_use (s_uses s) (s_uses s') (n_use s')] in
+  L [I (match r with Ok _ => 0 | Raise e => enc_exn e end);
+     match r with Ok p => enc_payload p | Raise _ => I 0 end;
+     I (hash_sx 1000003 d 1); I (hash_sx 998244353 d 1);
+     sB (wf_b s')].
+
+Fixpoint trace_h (cs : list call) (s : state) : list sx :=
+  match cs with
+  | [] => []
+  | c :: r => let sr := step s c in enc_step_h s (fst sr) (snd sr) :: trace_h r (fst sr)
+  end.
+Definition c01_case_h (cs : list call) : sx := L (trace_h cs empty_state).
+
 (* one correspondence case: a whole history from the empty heap *)
 Definition c01_case (cs : list call) : sx := L (trace cs empty_state).
 
